@@ -41,6 +41,7 @@
   `flushF` = at the head of the "executing previous unit cycles" loop, `flushW i` = inside write unit `i`'s drain loop.
 -/
 import MajoranaVerif.Model.Mvp60
+import MajoranaVerif.Model.Txn
 open GoInt
 
 namespace Model.Mvp61
@@ -113,6 +114,10 @@ structure State where
   executed : Nat := 0
   /-- ghost: number of runners pushed with a forwarding channel (`cu.forwarding`) -/
   forwarded : Nat := 0
+  /-- configuration, never changed by a tick: `true` = the machine is `proc/mvp6-2` (MVP-6.1 plus commit / rollback of
+  register writes through the transaction map; the four places where the two packages differ test this flag), see
+  `Model/Mvp62.lean`.  `Model.Mvp61.init` sets `false`. -/
+  v62 : Bool := false
   deriving Inhabited
 
 /-! ## the forward slots and the channels -/
@@ -228,6 +233,7 @@ structure CuSt where
   nextChan : Nat
   nextUid : Nat
   forwarded : Nat
+  v62 : Bool := false
 
 /-- `pushRunner(ctx, cycle, runner)` followed by `pushedRunnersInCurrentCycle[runner] = true` -/
 def pushRunner (st : CuSt) (cycle : Int) (r : Runner) : Option CuSt :=
@@ -243,7 +249,8 @@ def handleRunner (st : CuSt) (cycle : Int) (r : Runner) : M ((Bool × Bool) × R
   let t := r.instr.instructionType
   if t.IsBranch && st.pushedBranch then pure ((false, true), r, st)
   else if t == Gen.InstructionType.Ret && (!st.outBus.isEmpty || st.pendCond) then pure ((false, true), r, st)
-  else if hazardWithSkipped st.skipped r then pure ((false, true), r, st)
+  -- MVP-6.1: `return false, true`; MVP-6.2: `return false, false` (the loop goes on with the next runner)
+  else if hazardWithSkipped st.skipped r then pure ((false, !st.v62), r, st)
   else
     let hz := hazards st.ctx r.instr
     if hz.isEmpty then
@@ -296,7 +303,7 @@ def controlCycle (s : State) : M State :=
   else do
     let st : CuSt := { ctx := s.ctx, inBus := s.controlBus, outBus := s.executeBus, pendings := s.cuPendings,
                        prev := s.cuPrev, pendCond := s.cuPendCond, nextChan := s.nextChan, nextUid := s.nextUid,
-                       forwarded := s.forwarded }
+                       forwarded := s.forwarded, v62 := s.v62 }
     let (st, stopped) ← cuPendingLoop s.cycles s.cuPendings.iterator st
     let st ← if stopped then pure st else cuBusLoop s.cycles (st.inBus.pendingRead.toNat + 1) st
     pure { s with ctx := st.ctx, controlBus := st.inBus, executeBus := st.outBus, cuPendings := st.pendings,
@@ -324,6 +331,13 @@ def buAssert (s : State) (r : Runner) : State :=
     | some nextPc => fuReset { s with bu := { s.bu with toCheck := true, expectation := nextPc } } nextPc true
   else if t.IsConditionalBranch then { s with bu := { s.bu with toCheck := true, expectation := r.pc + 4#32 } }
   else { s with bu := { s.bu with toCheck := false } }
+
+/-- what the resolution of a conditional branch does to the context.  MVP-6.1 (`notifyConditionalBranch()`): nothing.
+MVP-6.2: `notifyConditionalBranchTaken(SequenceID)` = `ctx.Rollback(SequenceID)` when the branch jumps
+(`PcChange && NextPc != Pc+4`), else `notifyConditionalBranchNotTaken()` = `ctx.Commit()`.  (Both range over the map
+`ctx.Transaction`; the keys are distinct registers and each is written once: the order is irrelevant.) -/
+def condCtx (v62 : Bool) (ctx : Model.Context) (r : Runner) (e : Gen.Execution) : Model.Context :=
+  if v62 then (if e.PcChange && e.NextPc != r.pc + 4#32 then ctx.rollback r.seq else ctx.commit) else ctx
 
 /-- `executeUnit.run(r)` of unit `i` (after `Reset()`); `cyc` is `r.cycle` -/
 def euRun (app : App) (s : State) (i : Nat) (eu : ExecUnit) (r : Runner) (cyc : Int) : M (State × EuOut) :=
@@ -355,8 +369,8 @@ def euRun (app : App) (s : State) (i : Nat) (eu : ExecUnit) (r : Runner) (cyc : 
               let s := fuReset s e.NextPc true
               { s with du := { s.du with pendingBranchResolution := false } }
             else s
-          -- `notifyConditionalBranch()`
-          let s := if t.IsConditionalBranch then { s with cuPendCond := false } else s
+          -- `notifyConditionalBranch()` / MVP-6.2: `notifyConditionalBranchTaken` / `…NotTaken` (`condCtx`)
+          let s := if t.IsConditionalBranch then { s with cuPendCond := false, ctx := condCtx s.v62 s.ctx r e } else s
           if e.PcChange then
             let (fl, bu) := buShouldFlush s.bu e.NextPc
             pure ({ s with bu := bu }, if fl then .flush r.seq e.NextPc else .none)
@@ -452,9 +466,44 @@ def ExecUnit.isEmpty (eu : ExecUnit) : Bool := eu.co == .none
 def to60 (s : State) : Model.Mvp60.State :=
   { ctx := s.ctx, writeBus := s.writeBus, wus := s.wus, mmu := s.mmu, cycles := s.cycles }
 
-def wuCycle (s : State) (j : Nat) (before : Word) : M State := do
-  let t ← Model.Mvp60.wuCycle (to60 s) j before
-  pure { s with ctx := t.ctx, writeBus := t.writeBus, wus := t.wus }
+def setWu (s : State) (j : Nat) (wu : WriteUnit) : State := { s with wus := s.wus.set j wu }
+
+/-- `writeUnit.Cycle` of `proc/mvp6-2`: `Model.Mvp60.wuCycle` with `ctx.TransactionWriteRegister(execution, SequenceID)` in
+the place of `ctx.WriteRegister(execution)` -/
+def wuCycle62 (s : State) (j : Nat) (before : Word) : M State :=
+  match s.wus[j]? with
+  | none => throw (.panic "write unit index")
+  | some wu =>
+    match wu.co with
+    | .wait rem =>
+      if rem > 0 then pure (setWu s j { wu with co := .wait (rem - 1) })
+      else
+        match wu.memoryWrite with
+        | none => throw (.panic "nil memory write")
+        | some ec =>
+          match Model.Seq.writeMemory s.ctx ec.execution with
+          | none => throw (.panic "memory index")
+          | some ctx =>
+            pure { setWu s j { wu with co := .none } with ctx := deletePendingRegisters ctx ec.readRegisters ec.writeRegisters }
+    | .none =>
+      let (x, inBus) := s.writeBus.get
+      let s := { s with writeBus := inBus }
+      match x with
+      | none => pure s
+      | some ec =>
+        if before != BitVec.ofInt 32 (-1) && before.slt ec.seq then pure s
+        else if ec.execution.RegisterChange then
+          let ctx := s.ctx.transactionWriteRegister ec.execution.Register ec.execution.RegisterValue ec.seq
+          pure { s with ctx := deletePendingRegisters ctx ec.readRegisters ec.writeRegisters }
+        else if ec.execution.MemoryChange then
+          pure (setWu s j { co := .wait Gen.Latency.MemoryAccess, memoryWrite := some ec })
+        else pure { s with ctx := deletePendingRegisters s.ctx ec.readRegisters ec.writeRegisters }
+
+def wuCycle (s : State) (j : Nat) (before : Word) : M State :=
+  if s.v62 then wuCycle62 s j before
+  else do
+    let t ← Model.Mvp60.wuCycle (to60 s) j before
+    pure { s with ctx := t.ctx, writeBus := t.writeBus, wus := t.wus }
 
 def wusCycle (s : State) : M State :=
   (List.range s.wus.length).foldlM (fun s j => wuCycle s j (BitVec.ofInt 32 (-1))) s
@@ -486,7 +535,9 @@ def isEmpty (s : State) : Bool :=
 /-- after the outer loop: `cycle += m.memoryManagementUnit.flush()` -/
 def finish (s : State) (h : Halt) : M (State × Event) := do
   let (mem, extra) ← Model.Mmu.flush cfg s.mmu s.ctx.Memory
-  pure ({ s with ctx := { s.ctx with Memory := mem }, cycles := s.cycles + extra, mode := .normal }, .done h)
+  -- MVP-6.2: `m.ctx.Commit()` after the cache flush
+  let ctx := if s.v62 then s.ctx.commit else s.ctx
+  pure ({ s with ctx := { ctx with Memory := mem }, cycles := s.cycles + extra, mode := .normal }, .done h)
 
 structure EuAcc where
   flush : Bool := false
